@@ -8,6 +8,7 @@ let channels : (string * ((string * string) list -> string)) list = [
   ("visit", Chan_visit.run);
   ("dfs", Chan_dfs.run_dfs);
   ("dfsalgo", Chan_dfs.run_dfsalgo);
+  ("hball", Chan_hball.run);
 ]
 
 let () =
